@@ -128,7 +128,15 @@ def harness(tier, seed):
                  ("ignorednan/late", lin_eq, nan_ctrl, p0, np.array([1.0, -2.0]), 1, 5.0),
                  ("ignorednan/now", lin_eq, nan_now, p0, np.array([1.0, -2.0]), 1, 5.0),
                  ("ignorednan/second-entry", ctrl_eq, nan_second, p0, np.array([0.0, 1.0]), 2, 4.0)]
-    for (name, eq, ctrl, params, start, cd, max_time) in programs:
+    # few output rows over a long time span: the output grid is much coarser than the integrator's steps, so several
+    # integration segments lie between two rows (the default settings have it the other way round)
+    for k_ in (2, 3, 5, 11, 23):
+        programs.append((f"coarse-decay/{k_}-rows", lin_eq, zero_ctrl, p0, np.array([1.0, -2.0]), 1, 50.0, k_))
+        programs.append((f"coarse-integrator/{k_}-rows", ctrl_eq, const_ctrl, np.array([0.5]), np.array([0.0, 1.0]), 1, 40.0, k_))
+    default_steps = steps
+    for prog in programs:
+        (name, eq, ctrl, params, start, cd, max_time) = prog[:7]
+        steps = prog[7] if len(prog) > 7 else default_steps
         t0 = time.time()
         s0 = start.copy()
         try:
@@ -158,12 +166,12 @@ def harness(tier, seed):
         if abs(j2 - jr2) > 1e-9 * max(1.0, abs(jr2)):
             viol.append(("j_from_ode/documented-formula-partial-state", info, f"j={j2} reference={jr2}"))
         # analytic solutions
-        if name == "linear-decay/zero" and ode.shape[0] == steps:
+        if (name == "linear-decay/zero" or name.startswith("coarse-decay/")) and ode.shape[0] == steps:
             t = ode[:, -1]
             err = max(np.max(np.abs(ode[:, 0] - s0[0] * np.exp(-t))), np.max(np.abs(ode[:, 1] - s0[1] * np.exp(-2 * t))))
             if err > 1e-2:
                 viol.append(("run_ode/analytic-linear-decay", info, f"max abs error {err}"))
-        if name == "integrator/const" and ode.shape[0] == steps:
+        if (name == "integrator/const" or name.startswith("coarse-integrator/")) and ode.shape[0] == steps:
             t = ode[:, -1]
             err = max(np.max(np.abs(ode[:, 0] - 0.5 * t)), np.max(np.abs(ode[:, 1] - np.exp(-t))))
             if err > 1e-2:
